@@ -181,6 +181,15 @@ func (s *Server) DidOpen(ctx context.Context, params *protocol.DidOpenTextDocume
 	s.resolved.Delete(params.TextDocument.URI)
 	version := s.nextDocVersionLocked(params.TextDocument.URI)
 	s.docMu.Unlock()
+	// the opened text need not be the saved one (restored buffer, file changed on
+	// disk since it was read): from now on it is the file's content, as after a change
+	s.dropPayeeTemplates(params.TextDocument.URI)
+	if path := uriToPath(params.TextDocument.URI); path != "" {
+		if s.workspace != nil {
+			s.workspace.UpdateFile(path, params.TextDocument.Text)
+		}
+		s.loader.InvalidateFile(path)
+	}
 	go s.publishDiagnosticsVersion(ctx, params.TextDocument.URI, params.TextDocument.Text, version)
 	return nil
 }
